@@ -13,7 +13,8 @@ def validate(w, evfile):
 
 
 RACE = re.compile(r"WARNING: DATA RACE\n(.*?)\n==================", re.S)
-FRAME = re.compile(r"^\s+(?:github\.com/sealdice/dicescript|main|verif/harness)\.([^\s(]+)\(", re.M)
+NAME = r"((?:\(\*?[A-Za-z0-9_]+\)\.)?[A-Za-z0-9_.]+)"      # Func, Type.Method, (*Type).Method, init.N.funcM
+FRAME = re.compile(r"^\s+(?:github\.com/sealdice/dicescript|main|verif/harness)\." + NAME + r"\(", re.M)
 
 
 def race_reports(text):
@@ -24,25 +25,27 @@ def race_reports(text):
         for f in FRAME.findall(body):
             if f not in funcs:
                 funcs.append(f)
-        lib = [f for f in re.findall(r"^\s+github\.com/sealdice/dicescript\.([^\s(]+)\(", body, re.M)]
+        lib = [f for f in re.findall(r"^\s+github\.com/sealdice/dicescript\." + NAME + r"\(", body, re.M)]
         out.append({"ev": "c11r", "functions": funcs[:12], "library_functions": sorted(set(lib))[:12], "text": body[:1500]})
     return out
 
 
 def run(rep, tier, seed):
     thorough = tier == "thorough"
-    rep.assumptions += ["spec/Shared.tla: N VMs, package-level errLang and globalRng; Begin/Parse/Draw/End at the granularity of the gates (hook H5); TLC checks Isolation, NoRace, NoLostDraw for the repaired design (AsWas=FALSE) and requires both to FAIL for the pinned design (AsWas=TRUE)",
+    rep.assumptions += ["spec/Shared.tla: N VMs, package-level errLang and globalRng; Begin/Parse/Draw/End at the granularity of the gates (hook H5); TLC checks Isolation, NoRace, NoLostDraw for the repaired design (AsWas=FALSE) and requires both to FAIL for the pinned design (AsWas=TRUE); lazily compiled default-sides code is private to a VM (LazyPrivate), and the design with one process-wide cache (SharedCache=TRUE) is required to FAIL Isolation and NoRace",
                         "schedule replay: every complete schedule of 2 VMs (all language / seeded-unseeded assignments) written by TLC is executed with goroutines parked at the gates parse.lang / parse.done and released in the order of the schedule; thorough adds a sample of the 3-VM schedules",
-                        "free-running part: harness built with -race; 8 (thorough 16) goroutines, each creating its own VMs (seeded and unseeded, three languages, random family flags), syntax-error programs of every message kind, dice programs, generated programs; values are never shared",
+                        "free-running part: harness built with -race; 8 (thorough 16) goroutines, each creating its own VMs (seeded and unseeded, three languages, random family flags, and for a quarter of the evaluations DisableBitwiseOp / DisableNDice / IgnoreDiv0 / DefaultDiceSideExpr drawn too), syntax-error programs of every message kind, dice programs (with and without sides, in function bodies and computed values), generated programs; values are never shared",
+                        "the concurrent runs are the first thing the process does (lazily initialised state is first touched concurrently); 'in isolation' is taken literally: every reference value comes from a process of its own in which no other VM has existed",
                         "a seeded VM must return exactly what it returns alone (value, error text, process text); an unseeded VM the same kind of outcome and identical error texts",
                         "the race detector only sees executed interleavings; absence of unknown shared state is not proved"]
     with Work("c11") as w:
         r1 = tlc_must_pass(run_tlc(w, "Shared", "Shared.cfg", workers=8, timeout=900), "Shared")
-        for cfg in ("Shared_aswas.cfg", "Shared_aswas_race.cfg"):
+        r1b = tlc_must_pass(run_tlc(w, "Shared", "Shared_langs.cfg", workers=8, timeout=900), "Shared (three languages)")
+        for cfg in ("Shared_aswas.cfg", "Shared_aswas_race.cfg", "Shared_sharedcache.cfg", "Shared_sharedcache_race.cfg"):
             r = run_tlc(w, "Shared", cfg, workers=4, timeout=600)
             if not r.inv_violation:
-                raise MachineryError("Shared with AsWas=TRUE should violate its invariants (%s)" % cfg)
-        rep.set("states", r1.distinct); rep.set("transitions", r1.generated)
+                raise MachineryError("Shared with AsWas=TRUE / SharedCache=TRUE should violate its invariants (%s)" % cfg)
+        rep.set("states", r1.distinct + r1b.distinct); rep.set("transitions", r1.generated + r1b.generated)
         # (1) schedules
         sched = w.path("sched.ndjson")
         tlc_must_pass(run_tlc(w, "SharedMC", "SharedMC.cfg", env={"OUT": sched}, workers=1, timeout=900), "SharedMC")
@@ -59,6 +62,7 @@ def run(rep, tier, seed):
             evs.append(w.path("s3.ndjson"))
         # (2) free-running goroutines under the race detector
         run_vh(["gen", "-out", w.path("gen.ndjson"), "-n", "600", "-depth", "2"], env={"VERIF_SEED": str(seed)})
+        plain = vlib.build_harness()
         exe = vlib.build_harness(race=True)
         env = vlib.goenv(); env.update(VERIF_SEED=str(seed), GORACE="halt_on_error=0 history_size=4")
         reports = []
@@ -66,7 +70,7 @@ def run(rep, tier, seed):
         for rnd in range(4 if thorough else 1):
             o = w.path("free%d.ndjson" % rnd)
             env["VERIF_SEED"] = str(seed + rnd)
-            pr = subprocess.run([exe, "c11-free", "-out", o, "-goroutines", "16" if thorough else "8", "-rounds", "400" if thorough else "150", "-gen", w.path("gen.ndjson")],
+            pr = subprocess.run([exe, "c11-free", "-out", o, "-goroutines", "16" if thorough else "8", "-rounds", "400" if thorough else "150", "-gen", w.path("gen.ndjson"), "-isoexe", plain],
                                 capture_output=True, text=True, env=env, timeout=3000)
             if not os.path.exists(o) or "runs" not in pr.stdout:
                 raise MachineryError("race-detector run failed rc=%s:\n%s" % (pr.returncode, pr.stderr[-3000:]))
